@@ -137,6 +137,16 @@ impl Tap {
         for s in set {
             let n: String = s.nfc().collect();
             if n != s && self.seen_nf.insert(s.clone()) {
+                // normalisation can produce code points that were never drawn (U+F9BF -> U+6A02):
+                // display() asks for the width of a cell's first character, so the model needs theirs too
+                for c in n.chars() {
+                    let cp = c as u32;
+                    if self.seen_w.insert(cp) {
+                        let w = c.width().unwrap_or(0);
+                        let cm = is_combining_mark(c);
+                        self.out.push(format!("W {} {} {}", cp, w, cm as u32));
+                    }
+                }
                 let mut line = String::from("NF");
                 crate::dump::push_str(&mut line, &s);
                 crate::dump::push_str(&mut line, &n);
